@@ -633,6 +633,7 @@ def oracles(rep, focus, desc, rc, ev, bad, summ, real_events, real_errors, pre_s
     # --- C10: exit 0 implies no error event and (below) C01's postcondition
     if rc == 0 and real_errors: rep.oracle_fail("C10/exit-zero-with-error-events", f"exit 0 but error events for {real_errors[:3]}", desc)
     if rc == 0 and summ and summ.get("verification_failures", 0) > 0: rep.oracle_fail("C10/exit-zero-with-verification-failures", "exit 0 with verification_failures > 0", desc)
+    verified_counter_oracle(rep, desc, summ, real_events, pre_src, flags, cfg, rc)
     # --- C01 / C10 / C17: postcondition on success
     if rc == 0 and not dry:
         for rel in sel:
@@ -711,6 +712,20 @@ def oracles(rep, focus, desc, rc, ev, bad, summ, real_events, real_errors, pre_s
     if rc == 0 and not dry:
         left = [r for r in post_dst if r.endswith(".sy.tmp") and r not in pre_src and r not in pre_dst]
         if left: rep.oracle_fail("C05/working-file-left", f"working files remain after a successful run: {left[:3]}", desc)
+
+def verified_counter_oracle(rep, desc, summ, real_events, pre_src, flags, cfg, rc=None):
+    """C19 / C10 (seeded change C19b): in a verifying mode every regular file reported as created or updated was either verified
+    or counted as a verification failure — a verification that could not be carried out must not vanish from the report."""
+    if not summ or cfg.get("dry") or cfg.get("links", "p") == "f": return
+    mode = flags[flags.index("--mode") + 1] if "--mode" in flags else "standard"
+    if mode == "fast" and "--verify" not in flags: return
+    moved = [rel for t, rel in real_events if t in ("c", "u") and pre_src.get(rel, {}).get("k") == "f"]
+    got = summ.get("files_verified", 0) + summ.get("verification_failures", 0)
+    if got != len(moved):
+        what = (f"{len(moved)} regular files reported created/updated, but files_verified + verification_failures = "
+                f"{summ.get('files_verified')} + {summ.get('verification_failures')}")
+        rep.oracle_fail("C19/verification-not-accounted", what, desc)
+        if rc == 0: rep.oracle_fail("C10/exit-zero-with-unaccounted-verification", "exit 0 although a post-transfer verification was not carried out: " + what, desc)
 
 def run_bloom(tier="quick", seed=1, work=None, replay=None, **kw):
     """C06: the Bloom-filter branch of plan_deletions (more than BLOOM_THRESHOLD source entries) on a real tree:
